@@ -214,9 +214,12 @@ def gen_entries(rng, names, ov_names):
             fields.append("@location(%d) f%d: %s" % (loc, j, t))
             locs.add(loc)
             loc += rng.randint(1, 2)
-        if not locs:
+        if not locs and rng.random() < 0.5:
             fields.append("@location(%d) only: f32" % loc)
             locs.add(loc)
+        if rng.random() < 0.12:
+            # a vertex input struct made of builtins only (still a struct parameter: one buffer)
+            fields, locs, has_bi = ["@builtin(vertex_index) vidx: u32"], set(), True
         decl.append("struct %s { %s }" % (sn, ", ".join(fields)))
         vstructs.append((sn, locs, has_bi))
     for k in range(nv):
